@@ -33,7 +33,7 @@ ASSUMPTIONS = [
 ]
 CONFIG = {
     'shards': {'quick': 16, 'thorough': 16},
-    'min_nontrivial': {'quick': 1500, 'thorough': 15000},
+    'min_nontrivial': {'quick': 1500, 'thorough': 6000},
     'timeout': {'quick': 1200, 'thorough': 14400},
     'required_counters': ['mol_object_inputs', 'renumbered_inputs'],
 }
